@@ -174,6 +174,7 @@ func extractWritePaths(c *ctx) {
 	}
 	// how the persisted clock is written
 	clockWrite := "unknown"
+	clockWriteOrder := "unknown"
 	if f, err := parser.ParseFile(fset, filepath.Join(c.repo, "util/lamport/persisted_clock.go"), nil, 0); err == nil {
 		for _, d := range f.Decls {
 			fd, ok := d.(*ast.FuncDecl)
@@ -191,6 +192,23 @@ func extractWritePaths(c *ctx) {
 				return true
 			})
 			clockWrite = strings.Join(names, ",")
+			// the order in which Write takes its mutex, reads the counter and touches the file
+			var order []string
+			ast.Inspect(fd.Body, func(x ast.Node) bool {
+				switch n := x.(type) {
+				case *ast.CallExpr:
+					switch cn := callName(n); cn {
+					case "Lock", "Unlock", "Time", "TempFile", "Rename", "WriteFile", "Create", "OpenFile":
+						order = append(order, cn)
+					}
+				case *ast.SelectorExpr:
+					if n.Sel.Name == "counter" {
+						order = append(order, "counter")
+					}
+				}
+				return true
+			})
+			clockWriteOrder = strings.Join(order, ",")
 		}
 	}
 	// how a clock is created (every file-system call and method call on the clock in NewPersistedClock), and
@@ -263,6 +281,7 @@ func extractWritePaths(c *ctx) {
 	}
 	b.WriteString("]\n\n/-- file-system calls of `PersistedClock.Write`, in source order -/\n")
 	fmt.Fprintf(&b, "def clockWrite : List String := %s\n", leanStrList(strings.Split(clockWrite, ",")))
+	fmt.Fprintf(&b, "\n/-- `PersistedClock.Write` in source order: taking and releasing its mutex, reading the counter, the file-system calls -/\ndef clockWriteOrder : List String := %s\n", leanStrList(strings.Split(clockWriteOrder, ",")))
 	fmt.Fprintf(&b, "\n/-- calls of `NewPersistedClock` that touch the file system (`Write` is the clock's own atomic write) -/\ndef clockCreate : List String := %s\n", leanStrList(strings.Split(clockCreate, ",")))
 	fmt.Fprintf(&b, "\n/-- the conditions under which `read` answers ErrClockNotExist (each `return ErrClockNotExist` sits directly under one) -/\ndef clockNotExist : List String := %s\n", leanStrList(strings.Split(clockNotExist, ",")))
 	b.WriteString("\nend GitBugModel.Gen.WritePaths\n")
